@@ -425,6 +425,8 @@ def main():
     items.append((2, 3, 'nu', 4, 4, (1, 1), (0,), (), Fr(-1), False, None, True))          # right-hand side given as a function
     items.append((2, 2, 'nu', 4, 4, (1, 1), (1,), (1,), Fr(-1), True, None, False, True))   # ill-posed on a mode other than 0 (C = D = 0): must be refused
     items.append((1, 3, 'nu', 7, 4, (1, 1), (0,), (), Fr(-1), False, None))                 # requested exactness well above 2p+1
+    items.append((3, 2, 'nu', 2, 4, (1, 1), (0,), (), Fr(-1), False, None))                 # requested exactness below the spline degree
+    items.append((2, 3, 'nu', 1, 4, (1, 1), (), (), Fr(-1), False, None))
     items.append((2, 3, 'nu', 4, 4, (1, 1), (0,), (), Fr(-1), False, CANARIES[0]))
     items.append((2, 3, 'nu', 4, 4, (2, 1), (), (-1, 1), Fr(-1), False, CANARIES[1]))
     caught = {}
